@@ -15,6 +15,7 @@ From Coq Require Import Strings.String.
 From Coq Require Import ZArith List Bool Lia Strings.Byte.
 From YV Require Import Val.Model Tree.Schema Tree.Merge Tree.PathExpr Tree.PathExprProofs Tree.Params Tree.Project Tree.ParamsProofs Tree.Reading Tree.ReadingProofs Tree.Chain Tree.ProjectChain Tree.ChainProofs.
 From YV Require Import Tree.Editor Tree.ExportProofs Tree.ParamsExport Tree.ParamsList Tree.ProjectLaws.
+From YV Require Import Tree.PathMem Tree.PathMemProofs.
 Import ListNotations.
 Open Scope Z_scope.
 
@@ -512,3 +513,40 @@ Example C07_chain_example :
     = POk [DCont [Some (DLeaf (LV (VStr [x62]))); Some (DCont [None])]].
 Proof. exact chain_example. Qed.
 Print Assumptions C07_chain_example.
+
+(** * improver k07: expandPaths at the level of Go slices (Tree/PathMem.v, Tree/PathMemProofs.v)
+
+    A path is a slice = (backing array, length); append writes into the spare capacity of the
+    backing array when there is room.  For EVERY growth policy of append, every heap, every list
+    of paths (whatever their lengths and capacities: a group behind a prefix of any length) and
+    every group: the repaired expandPaths reads out as the list-level expansion the other C07
+    theorems are stated over (so every alternative is there behind every path), no slice that
+    existed before reads differently afterwards, and the new paths are live. *)
+Theorem C07_expand_paths_slices : forall grow h ps sub h' out,
+  Forall (live h) ps -> Forall (live h) sub -> expand_paths_mem grow h ps sub = (h', out) ->
+  map (rd h') out = expand_paths (map (rd h) ps) (map (rd h) sub)
+  /\ (forall s, live h s -> rd h' s = rd h s)
+  /\ Forall (live h') out.
+Proof. exact expand_paths_mem_spec. Qed.
+Print Assumptions C07_expand_paths_slices.
+
+Theorem C07_expand_keeps_every_alternative : forall grow h ps sub h' out p s,
+  Forall (live h) ps -> Forall (live h) sub -> expand_paths_mem grow h ps sub = (h', out) ->
+  In p ps -> In s sub -> In (rd h p ++ rd h s) (map (rd h') out).
+Proof. exact expand_paths_mem_keeps_every_alternative. Qed.
+Print Assumptions C07_expand_keeps_every_alternative.
+
+(** the same statement for `append(dest, src...)` (before e401f2d; seeded change RC07-A) *)
+Definition C07_expand_old_slices_full_statement : Prop := expand_old_full_statement.
+Theorem C07_expand_old_slices_refuted : ~ C07_expand_old_slices_full_statement.
+Proof. exact expand_old_full_refuted. Qed.
+Print Assumptions C07_expand_old_slices_refuted.
+
+(** a/b/c/(d;e): the slice-level parser with the old entry loses d; the repaired one and the
+    list-level parser agree (the hypotheses of C07_expand_paths_slices hold on the way) *)
+Example C07_expand_slices_example :
+  parse_mem_old abc_de = POk [[ia; ib; ic; ie]; [ia; ib; ic; ie]]
+  /\ parse_mem abc_de = POk [[ia; ib; ic; id_]; [ia; ib; ic; ie]]
+  /\ parse_path_expr abc_de = POk [[ia; ib; ic; id_]; [ia; ib; ic; ie]].
+Proof. exact expand_old_mem_refuted. Qed.
+Print Assumptions C07_expand_slices_example.
